@@ -22,6 +22,18 @@ func genC10(g *gen, tier string) *Scenario {
 	sc.Stubs.LoaderSlowDur = int64(g.rng(1, 3000)) * ms
 	sc.Stubs.ListenerSlowPct = pick(g, 0, 0, 20)
 	sc.Stubs.ListenerSlowDur = int64(g.rng(1, 2000)) * ms
+	// configurations: termination is claimed for all of them (the pool's documented
+	// weakness is about accounting, not about blocking)
+	sc.Cache.Pool = g.pct(30)
+	sc.Cache.Doorkeeper = g.pct(15)
+	if strings.HasPrefix(kind, "hybrid") {
+		sc.Cache.Prob = pick(g, float32(1), 1, 0.5, 0)
+		sc.Stubs.SecSlowPct = pick(g, 0, 30, 100)
+		sc.Stubs.SecSlowDur = int64(g.rng(1, 2000)) * ms
+		sc.Stubs.SecSetErrPct = pick(g, 0, 0, 25)
+		sc.Stubs.SecGetErrPct = pick(g, 0, 0, 25)
+		sc.Stubs.SecDelErrPct = pick(g, 0, 0, 25)
+	}
 	nc := g.rng(2, 5)
 	if tier == "thorough" {
 		nc = g.rng(2, 7)
